@@ -9,7 +9,7 @@ import osc10
 
 TITLE = 'OSC encoding round-trips, conforms to OSC 1.0 and is sized correctly'
 TRANSLATED = ['Gen_size']
-MODEL_TARGETS = ['model/Osc.vo', 'model/OscSize.vo', 'model/Osc10.vo', 'model/OscCheck.vo', 'gen/Gen_size.vo']
+MODEL_TARGETS = ['model/Osc.vo', 'model/OscSize.vo', 'model/Osc10.vo', 'model/OscDomain.vo', 'model/OscCheck.vo', 'gen/Gen_size.vo']
 ALLOWED_AXIOMS = []
 TRUSTED = [
     'hand-written models coq/model/Osc.v (sc3/base/_osclib.py, _oscinterface.py:_build_msg/_build_bundle) and '
@@ -805,6 +805,7 @@ def correspond(ctx):
 
     b_items, b_idx, s_items, s_idx, p_items, p_idx, k_items, k_idx = [], [], [], [], [], [], [], []
     o_items, o_idx = [], []
+    d_items, d_idx = [], []
     dgrams = []
     for n, (k, o) in enumerate(zip(allc, out)):
         if 'crash' in o:
@@ -832,6 +833,9 @@ def correspond(ctx):
         c.count('class:' + k.get('cls', '?'))
         c.count('itf:' + k.get('itf', 'nrt'))
         b = o['build']
+        if not k.get('nobuild'):        # the documented domain (in_domain) against what the real builder did
+            d_items.append('(%s, %s)' % (term, cz(0 if b[0] == 'ok' else b[1])))
+            d_idx.append(n)
         if b[0] == 'ok':
             c.count('build:ok')
             if not k.get('nobuild'):
@@ -927,6 +931,7 @@ def correspond(ctx):
         ('build', b_items, b_idx, 'Eval vm_compute in bad_idx (fun c => build_ok true (fst c) (snd c)) cases.', 60),
         ('size', s_items, s_idx, 'Eval vm_compute in bad_idx (fun c => size_ok true (fst c) (snd c)) cases.', 80),
         ('parse', p_items, p_idx, 'Eval vm_compute in bad_idx (fun c => parse_ok (fst c) (snd c)) cases.', 80),
+        ('domain', d_items, d_idx, 'Eval vm_compute in bad_idx (fun c => domain_ok (fst c) (snd c)) cases.', 80),
         ('osc10', o_items, o_idx, 'Eval vm_compute in bad_idx osc10_accepts cases.', 80),
         ('clump', k_items, k_idx, "Eval vm_compute in bad_idx (fun c => let '(s, a, e) := c in clump_ok true s a e) cases.", 12),
         ('strpad4', sp_items, ns, 'Eval vm_compute in bad_idx (fun c => strpad4 (fst c) =? snd c) cases.', 200),
@@ -944,6 +949,11 @@ def correspond(ctx):
                         % ('encoding' if name == 'build' else 'predicted size', show(k['v']),
                            (o['build'][:1] + o['build'][2:]) if name == 'build' else o['pred']))
                 c.failures.append(Failure('correspondence', what, replay={'check': name, 'case': k, 'impl': {x: o[x] for x in ('build', 'pred') if x in o}}))
+            elif name == 'domain':
+                k, o = allc[ref], out[ref]
+                c.failures.append(Failure('correspondence', 'the documented domain and the builder disagree on %s: the builder %s'
+                                          % (show(k['v']), 'accepts a value outside the domain' if o['build'][0] == 'ok' else 'refuses (%s) a tree of the domain' % o['build'][2]),
+                                          replay={'check': name, 'case': k, 'impl': o['build'][:1] + o['build'][2:]}, theorem='build_accepts'))
             elif name == 'osc10':
                 k, o = allc[ref], out[ref]
                 c.failures.append(Failure('correspondence', 'the independent OSC 1.0 decoder (coq/model/Osc10.v) rejects the datagram built for %s: %r'
